@@ -35,6 +35,14 @@ TERMINALS = [
         'K': {4: [('1qaz', 1.0)]},
         'Y': [('2019', 1.0)], 'X': [('#1', 1.0)],
     },
+    {   # tails of tiny probabilities and neighbouring doubles: adjacent values closer than any absolute tolerance are still different groups
+        'A': {1: [('a', .5), ('b', 0.30000000000000004), ('c', 0.3)], 2: [('ab', .9), ('cd', 3e-17), ('ef', 1e-17)]},
+        'C': {1: [('L', 0.6), ('U', 0.4)], 2: [('LL', 0.9999999999999999), ('UL', 1e-16), ('LU', 5e-17)]},
+        'D': {1: [('1', .6), ('2', 3e-17), ('3', 2e-17), ('4', 1e-17)], 2: [('12', 1.0)]},
+        'O': {1: [('!', .7), ('#', 2e-17)]},
+        'K': {4: [('1qaz', 1.0)]},
+        'Y': [('2019', .5), ('1999', 0.49999999999999994)], 'X': [('#1', 1.0)],
+    },
 ]
 STRUCTS = ['A1', 'A1D1', 'D1A1', 'A2A1', 'A1O1A2', 'D1D1', 'D2', 'Y1O1', 'K4X1', 'M', 'A1D1A1']
 PROBS = {1: [[1.0], [0.3]], 2: [[.5, .3], [.4, .4]], 3: [[.5, .3, .2], [.4, .4, .2]]}
@@ -109,6 +117,13 @@ def check_one(mods, spec, root, flags, acc):
             continue
         if not any(R.within_slack(prob, R.exact_product([bp] + fac), len(fac) + 2) for bp in cands):
             fails.append(('C01', 'reported prob %r of %r is not base %r x %r' % (prob, pt, cands, fac)))
+        # "... and hence every guess": the terminals this pre-terminal stands for are exactly those the ruleset lists with these probabilities
+        for t, i in pt:
+            have = [str(v) for v in g.grammar[t][i]['values']]
+            want = [str(v) for v in types[t][i][1]]
+            if sorted(have) != sorted(want):
+                fails.append(('C01', 'terminals: %s[%d] (probability %r) stands for %r, the ruleset gives that probability to %r' % (t, i, tp[t][i], have[:6], want[:6])))
+                break
         if len(fails) > 5:
             break
     return fails, seq
